@@ -301,6 +301,7 @@ def _main(mod, pid, tier, seed, args, t0):
 
     T, P, A, K, F = [], [], [], [], []
     axioms = {}
+    leanchecked = []
     # 1. translator
     if getattr(mod, "TRANSLATE", False):
         from harness import translate
@@ -321,6 +322,15 @@ def _main(mod, pid, tier, seed, args, t0):
                 print("warning: driver did not rebuild (unrelated generated file?); using the previous binary", file=sys.stderr)
         # 3. audit
         axioms, A = audit(pid, mod.LEAN_MODS, mod.THEOREMS) if ok else ({}, [])
+        # thorough tier: Lean's independent re-checker replays the compiled property modules in a fresh kernel
+        if ok and tier == "thorough":
+            for m in mod.LEAN_MODS:
+                pr = subprocess.run(["lake", "env", "leanchecker", m], cwd=LEAN, capture_output=True, text=True, timeout=3000)
+                o = pr.stdout + pr.stderr
+                if pr.returncode != 0 or "uncaught exception" in o or "error" in o.lower():
+                    A.append(f"leanchecker rejected {m}: {o[-300:]}")
+                else:
+                    leanchecked.append(m)
     driver_ok = DRIVER.exists()
 
     known = [k for k in load_known() if k.get("property") == pid]
@@ -444,6 +454,7 @@ def _main(mod, pid, tier, seed, args, t0):
                 "correspondence harness + generators (agreement shown only on generated inputs)"],
             "theorems": [{"name": t, "axioms": axioms.get(t)} for t in mod.THEOREMS],
             "partial_theorems": [t for t in mod.THEOREMS if t.endswith("_partial")],
+            "leanchecker_replayed": leanchecked,
             "evaluations": stats["evaluations"],
             "distinct_nontrivial": len(stats["nontrivial"]),
             "distinct": len(stats["distinct"]),
